@@ -56,7 +56,7 @@ class EqGoal(object):
         self.a = as_sym(a)
         self.b = as_sym(b)
 
-    def smt_parts(self, sep=None):
+    def smt_parts(self, sep=None, rel=None):
         outs = []
         for x, y in ((self.a.re, self.b.re), (self.a.im, self.b.im)):
             if x.is_zero() and y.is_zero():
@@ -64,7 +64,11 @@ class EqGoal(object):
             n1, m1, n2, m2, dsc = q_eq_parts(x, y)
             l = "(* %s %s)" % (n1.smt(), m1.smt())
             r = "(* %s %s)" % (n2.smt(), m2.smt())
-            if sep is None:
+            if rel is not None:
+                # |x - y| > rel * sqrt(2 (x^2 + y^2)) on the cross-multiplied sides (same positive common factor)
+                outs.append("(> (* (- %s %s) (- %s %s)) (* %s (+ (* %s %s) (* %s %s))))" % (
+                    l, r, l, r, P._smt_q(2 * Fraction(rel) ** 2), l, l, r, r))
+            elif sep is None:
                 outs.append("(not (= %s %s))" % (l, r))
             else:
                 # |x - y| >= sep  <=> (n1 m1 - n2 m2)^2 >= sep^2 * L^2,  L = common denominator (with its scalar)
@@ -423,14 +427,14 @@ def explore(fn, params, max_paths=64, feas_timeout=10.0, stats=None, max_decisio
     set_ctx(None)
 
 
-def claim_query(cl, sep=None, twin=False):
+def claim_query(cl, sep=None, twin=False, rel=None):
     """SMT text for a claim (negated) or for its reachability twin"""
     nz = not (cl.note == "no-atoms")
     if twin:
         return smt.build(cl.axioms, cl.pcs, None, atoms_nonzero=nz)
     if cl.kind == 'eq':
         g = cl.goal
-        return smt.build(cl.axioms, cl.pcs, g.smt_parts(sep), g.vars(), g.atoms(), atoms_nonzero=nz)
+        return smt.build(cl.axioms, cl.pcs, g.smt_parts(sep, rel), g.vars(), g.atoms(), atoms_nonzero=nz)
     return smt.build(cl.axioms, cl.pcs, cl.goal.smt(), smt.sb_vars(cl.goal), smt.sb_atoms(cl.goal), atoms_nonzero=nz)
 
 
